@@ -18,7 +18,7 @@ from vf.common.harness import Result
 ID = "C09"
 RULE = (
     "Generated callback placements over a typed Evt/Jet/Trk model: class-level callbacks, method-level callbacks, both, a "
-    "func_adl_callable processor and a func_adl_parameterized_call property (1-3 literal parameters), each optionally "
+    "func_adl_callable processor and a func_adl_parameterized_call property (0-3 literal parameters, also a one-element tuple, a tuple inside a one-element tuple, a list), each optionally "
     "rewriting the call site (rename the method/function, append a constant argument); queries with uniquely marked call "
     "sites at depth 0-3 inside Select/Where/SelectMany lambdas of the stream and of typed collections, as the root of a "
     "nested lambda body, inside arithmetic, as positional or keyword argument of a registered / unregistered function, in tuples and dicts (keys that are identifiers or not: blanks, keywords, empty, repeated), across 1-2 stages; some registered callbacks unused. "
@@ -95,7 +95,7 @@ def _val(draw, var, cls, depth, names, ctr, outer=()):
             return ["fn2", mark(), draw(st.sampled_from([None, "2.5", "0.25"]))]
         return ["fn", mark()]
     if c == 7 and cls == "Jet":
-        params = draw(st.sampled_from(["5", "'x'", "5, 'x'", "1, 2, 3", "'a', 2", "(1, 2)"]))
+        params = draw(st.sampled_from(["5", "'x'", "5, 'x'", "1, 2, 3", "'a', 2", "(1, 2)", "'x',", "(5,)", "('p', 'q'),", "()", "[1, 2]"]))
         return ["psite", ["var", var], params, mark()]
     if c == 8 and draw(st.booleans()):
         # the value is handed to a function, positionally or BY KEYWORD: an unregistered back-end function (left as written) or a
